@@ -249,6 +249,17 @@ def run(shard, rec):
         r = R.random_derangement(secint, a8); spoil(a8)
         res.append(('derangement5', await o(r)))
         res.append(('caller_lists_reused', 8))
+        # several draws pending at once (nothing awaited in between), results taken in another order
+        pend = [('sample_range', R.sample(secint, range(10, 40, 5), 4)), ('sample_range', R.sample(secint, range(10, 40, 5), 4)),
+                ('derangement5', R.random_derangement(secint, 5)), ('randrange(-7,20,3)', R.randrange(secint, -7, 20, 3)),
+                ('sample_list', R.sample(secint, [3, 1, 4, 1, 5, 9], 3)), ('perm5', R.random_permutation(secint, 5)), ('unit7', R.random_unit_vector(secint, 7)),
+                ('sample_range', R.sample(secint, range(10, 40, 5), 4))]
+        got = [None] * len(pend)
+        for j in (5, 0, 7, 2, 1, 6, 3, 4):
+            got[j] = await o(pend[j][1])
+        for (name, _), v in zip(pend, got):
+            res.append((name, v))
+        res.append(('concurrent_draws', len(pend)))
         return res
     for rep in range(shard['reps']):
         case = [shard['name'], rep]
@@ -262,8 +273,8 @@ def run(shard, rec):
         if any(r != res[0] for r in res):
             rec.violation(f'{shard["name"]}: parties opened different random values', {'mechanism': 'parties-disagree'}, {'case': case}, case=case)
         for name, v in res[0]:
-            if name == 'caller_lists_reused':
-                rec.count('caller_lists_reused', v)
+            if name in ('caller_lists_reused', 'concurrent_draws'):
+                rec.count(name, v)
                 continue
             rec.count('range_shape_draws')
             ok = {
